@@ -183,7 +183,8 @@ def bounds_multiset(T, ops):
         if type(c) is T.Range:
             for b, inc in ((c.low, c.include_low), (c.high, c.include_high)):
                 if not (type(b) is T.Word and b.value == "*"):
-                    out.append((gentree.describe(b), inc, b is c.low))
+                    # a bound may itself contain an AND that merges: identify it by its terms
+                    out.append((type(b).__name__, leaf_hash(T, b), inc, b is c.low))
     return sorted(out)
 
 
@@ -219,6 +220,39 @@ def bounds_of(T, c):
     return sum(1 for b in (c.low, c.high) if not (type(b) is T.Word and b.value == "*"))
 
 
+def conv_check(T, a, b, ah, extra_head="", extra_tail=""):
+    """b is a converted (merge off): comparisons became ranges, everything else is the same"""
+    if (b.pos, b.size, b.head, b.tail) != (a.pos, a.size, a.head + extra_head, a.tail + extra_tail):
+        return "pos/size/head/tail of %s not kept" % type(a).__name__
+    if isinstance(a, T.OpenRange):
+        if type(b) is not T.Range:
+            return "a comparison did not become a Range"
+        low_side = isinstance(a, T.From)
+        star, bound = (b.high, b.low) if low_side else (b.low, b.high)
+        if not (type(star) is T.Word and star.value == "*"):
+            return "the open side of a converted comparison is not *"
+        if (star.head, star.tail) != ((ah, "") if low_side else ("", ah)):
+            return "unexpected layout on the * of a converted comparison"
+        flags = (b.include_low, b.include_high)
+        if flags != ((a.include, True) if low_side else (True, a.include)):
+            return "inclusiveness not kept by the conversion"
+        return conv_check(T, a.a, bound, ah, **({"extra_tail": ah} if low_side else {"extra_head": ah}))
+    if type(b) is not type(a):
+        return "a node that is not a comparison changed class"
+    if any(getattr(a, x) != getattr(b, x) for x in a._equality_attrs):
+        return "an attribute of a %s changed" % type(a).__name__
+    for flag in ("_implicit_degree", "implicit_force"):
+        if getattr(a, flag, None) != getattr(b, flag, None):
+            return "the implicit flag of a %s changed" % type(a).__name__
+    if len(a.children) != len(b.children):
+        return "a node has another number of children after conversion"
+    for c, d in zip(a.children, b.children):
+        why = conv_check(T, c, d, ah)
+        if why:
+            return why
+    return None
+
+
 def numbers_in(T, tree):
     vals = set()
     for _, n in gentree.all_nodes(tree):
@@ -230,7 +264,10 @@ def numbers_in(T, tree):
     return vals
 
 
-def oracle(T, tree, out_off, out_on):
+def oracle(T, tree, out_off, out_on, ah):
+    why = conv_check(T, tree, out_off, ah)
+    if why:
+        return why
     for label, out in (("off", out_off), ("on", out_on)):
         if any(isinstance(n, T.OpenRange) for _, n in gentree.all_nodes(out)):
             return "a From/To comparison is left in the output (merge %s)" % label
@@ -339,7 +376,7 @@ def correspond(model_ok, res):
             if any(id(n) in ids_in for _, n in gentree.all_nodes(outs[merge])):
                 res.failures.append(({"tree": desc[:1500], "merge": merge,
                                       "why": "the output shares a node object with the input"}, None))
-        why = oracle(T, tree, outs[False], outs[True])
+        why = oracle(T, tree, outs[False], outs[True], ah)
         if why:
             res.failures.append(({"tree": desc[:1500], "add_head": ah, "why": why,
                                   "merge_off": str(outs[False])[:300], "merge_on": str(outs[True])[:300]}, None))
@@ -388,9 +425,30 @@ SPEC = {
     "targets": ["props/C12.vo"],
     "model_targets": ["model/OpenRange.vo", "model/TreeEq.vo"],
     "module": "C12",
-    "theorems": [],
+    "theorems": ["C12_total", "C12_no_comparison_left", "C12_conversion", "C12_copy_drops_name_only",
+                 "C12_merge_structure", "C12_and_node", "C12_plain_node",
+                 "C12_merge_steps_preserve_conjunction", "C12_wildcard"],
     "correspond": correspond,
-    "statement": "",
-    "trusted_base": [],
-    "assumptions": [],
+    "statement": "OpenRangeTransformer never fails and leaves no From/To; without merging the output is the input "
+                 "where exactly the comparisons became the Range with the same bound (converted), same "
+                 "inclusiveness, * and inclusive on the other side, same pos/size/head/tail, every other node its "
+                 "default copy (name dropped only); with merging the operands of each AND are obtained from its "
+                 "converted operands by steps that combine two one-sided Range operands of that list of opposite "
+                 "sides, until none applies; non-range operands (boosted/fielded ranges included) are kept; the "
+                 "conjunction has the same truth for every value of any type with any order relation, any "
+                 "valuation of bounds with * unbounded, any truth of opaque operands; every other node keeps its "
+                 "children one to one",
+    "trusted_base": [
+        "Coq 8.16.1 kernel (vm_compute for table facts, examples and correspondence; no native_compute)",
+        "no axioms (Print Assumptions: closed under the global context)",
+        "gen/translate.py: class MROs, _equality_attrs, OpenRangeTransformer method table",
+        "hand-written model coq/model/OpenRange.v over the shared Eq.v (clone_item, __eq__), Visitor.v, tied by "
+        "differential correspondence (harness/c12.py) on every run",
+        "value-based tree model: object identity is not modelled; 'input not modified' and 'output shares no "
+        "node with the input' are checked on the implementation by snapshot only",
+    ],
+    "assumptions": ["trees contain only luqum.tree classes; no node object occurs at two positions",
+                    "single-valued field semantics: one value x per field for a whole AND (for multi-valued "
+                    "fields merging two ranges is not an equivalence; the property text speaks of 'the value')",
+                    "layout of a merged-away range (its head/tail) is dropped by the code: not part of C12"],
 }
